@@ -1,5 +1,5 @@
-\* scenario: A adds x and y; B (saw both) removes x and then y with the context of read() (the SAME clock);
-\* then free exploration with 3 replicas: the removes overtake the adds at C, meet through merges, ...
+\* scenario: A adds x then y; B (saw both) removes y and then x with the context of read() (the SAME clock);
+\* then free exploration with 3 replicas: at C the remove of the absent member is pending when the remove of the present one arrives
 CONSTANTS
   NReps = 3
   NMembers = 2
@@ -10,7 +10,7 @@ CONSTANTS
   UseDup = FALSE
   DumpReset = FALSE
   CmdSet = {"add", "rm", "rmall"}
-  ScriptName = "same_ctx_removes"
+  ScriptName = "same_ctx_removes_rev"
   Reps <- MCReps
   Actors <- MCActors
   Members <- MCMembers
